@@ -40,6 +40,16 @@ class LocalizedError(TypedDict):
     err: ErrorMsg
 
 
+def _error_key_order(key: Any) -> Tuple[int, Any]:
+    # data can have keys of mixed/unorderable types (they are not validated yet)
+    if isinstance(key, int):
+        return 0, key
+    elif isinstance(key, str):
+        return 1, key
+    else:
+        return 2, str(key)
+
+
 class ValidationError(Exception):
     @overload
     def __init__(self, __message: str):
@@ -69,9 +79,13 @@ class ValidationError(Exception):
     def _errors(self) -> Iterator[Tuple[List[ErrorKey], ErrorMsg]]:
         for msg in self.messages:
             yield [], msg
-        for child_key in sorted(self.children):
+        for child_key in sorted(self.children, key=_error_key_order):
+            if not isinstance(child_key, (str, int)):
+                loc_key: ErrorKey = str(child_key)
+            else:
+                loc_key = child_key
             for path, error in self.children[child_key]._errors():
-                yield [child_key, *path], error
+                yield [loc_key, *path], error
 
     @property
     def errors(self) -> List[LocalizedError]:
